@@ -7,7 +7,8 @@ Open Scope Z_scope.
 
 (* an op of the harness: a model label, or the macro "the server side of the current session goes
    away and the manager rebuilds" = SessLoss; SessCleanup cur; BgPop * pooled; Rebuild *)
-Inductive hop := HL (l : label) | HSessLoss | HEndWin.
+Inductive hop := HL (l : label) | HSessLoss | HEndWin
+  | HPut (c x : nat).   (* a complete PutBack with nothing interleaved: PutPrepare; PutPush *)
 (* HEndWin = the part after the shutdown flag: SessCleanup cur; BgPop * pooled; Rebuild *)
 
 Record snap := {
@@ -64,6 +65,7 @@ Definition run_hop (s : st) (o : hop) : st * result :=
   | HL l => step s l
   | HSessLoss => (end_window (fst (step s SessLoss)), RNone)
   | HEndWin => (end_window s, RNone)
+  | HPut c x => let '(s1, r1) := step s (PutPrepare c x) in (fst (step s1 (PutPush c x)), r1)
   end.
 
 (* first step at which model and implementation differ: (step index, field code);
@@ -78,6 +80,7 @@ Fixpoint first_diff (s : st) (l : list pstep) (n : nat) : option (nat * Z) :=
                   | HL (Get _) => (rc =? p_res p) && (got =? p_got p)
                   | HL _ => negb (rc =? -2)         (* the harness never issues an op the model ignores *)
                   | HSessLoss | HEndWin => true
+                  | HPut _ _ => negb (rc =? -2)
                   end in
     if negb res_ok then Some (n, 7)
     else let d := snap_diff (model_snap s') (p_snap p) in
